@@ -48,7 +48,8 @@ var AllFaultKinds = []FaultKind{FaultTransport, FaultHTTP500, FaultRPCError, Fau
 type Node struct {
 	Chain *Chain
 
-	mu sync.Mutex
+	mu     sync.Mutex
+	hookMu sync.Mutex
 	// TipFn returns the height the node reports; default = chain tip.
 	TipFn func() uint32
 	// OnRequest is called (outside the lock) for every request before it is answered.
@@ -164,7 +165,10 @@ func (n *Node) RoundTrip(req *http.Request) (*http.Response, error) {
 
 	fault := NoFault
 	if hook != nil {
+		// hooks are serialised: multiFetch issues entry requests from 8 goroutines
+		n.hookMu.Lock()
 		fault = hook(r)
+		n.hookMu.Unlock()
 	}
 	if err := req.Context().Err(); err != nil {
 		return nil, err
